@@ -5,6 +5,10 @@ HERE = os.path.dirname(os.path.dirname(os.path.abspath(__file__)))
 props = [json.loads(l) for l in open(os.path.join(HERE, "properties.jsonl"))]
 
 CHECKS = {
+ "C04": dict(
+   text="Spec/CondSpec.v is the documented three-valued semantics of conditions (string presence/count/offset/length, at/in, of, for..of/for..in with any quantifier, integer arithmetic/bitwise/shift/comparison, boolean operators, intN/uintN readers, filesize, earlier rules, integer externals, defined). Theorems over models regenerated from the sources on every run: grammar.y's precedence/associativity declarations equal the manual's table; every integer VM case yields undefined for an undefined operand; and/or treat undefined as false, not propagates it; each integer opcode computes the documented operator (C12's theorem). Tie: the extracted evaluator (over the C01 reference match sets) is compared with the real compiler+scanner on random typed condition trees of depth <= 5 with up to 3 nested loops, printed with minimal parentheses, 1-3 rules per set, externals at INT64 extremes, reads past the end, out-of-range indexes.",
+   note="Trusted: Coq kernel, extraction, translators (genfold/cexpr/GenPrec), harness. Not proved: that the bytecode emitted for a condition computes the evaluator's value (no model compiler yet) - that part is correspondence only. Floats, string operators (contains, matches, ...) and module calls are not in the fragment. Known finding: an undefined numeric quantifier acts as 'all'.",
+   technique="Coq proof over source-generated opcode/precedence models + evaluator-vs-implementation correspondence", ref="DESIGN.md 4 C04"),
  "C01": dict(
    text="Spec/TextSpec.v is the documented semantics of text strings (ascii, wide, nocase, fullword, xor ranges). Theorems: the executable reference reports every offset once, in ascending order, exactly where the string occurs (text_matches_exact, all strings, modifiers and buffers); for ANY atom set that passes the coverage certificate every occurrence in every buffer is proposed to the verifier by an atom hit (candidates_complete: 'whichever substring the engine picks'). Tie: the certificate cover_ok is evaluated by the extracted model on the atoms decoded from the saved image of every generated rule (Model/Image.v decodes strings, transition table, match lists), and the real scanner's match lists are compared with the extracted reference on generated strings x buffers (planted variants at 0/end/overlapping, near misses, alnum/NUL neighbours, keys outside the range).",
    note="Trusted: Coq kernel, extraction, C harness h_scan, layout/constants/character-table translators. Not proved (correspondence only): the verifier accepts exactly the occurrences among the candidates; the stored automaton reports exactly the atom hits. base64/base64wide strings are not covered yet.",
